@@ -726,7 +726,7 @@ NOT_YET = {}
 _LEVEL_NOTE = ("Trusted base: the xrt runtime (scheduler, vector clocks, heap shadow) and the sequential models in monitors/; gcc 12 -O1 "
                "TSan-instrumented build of the header-only library from /repo's working tree; executions explored = seeded sample, not all schedules.")
 META = {
-    "C18": dict(design_ref="DESIGN.md 5/C18", technique="runtime monitoring: reference-model monitor of slot ownership (exception expected / forbidden per operation) over bounded-exhaustive and random guard operation sequences + destroyed-while-guarded registry + heap shadow",
+    "C18": dict(design_ref="DESIGN.md 5/C18", technique="runtime monitoring: reference-model monitor of slot ownership (exception expected / forbidden per operation) over bounded-exhaustive and random guard operation sequences (up to 3K+2 guards for the dynamic strategies) + destroyed-while-guarded registry + release probe (bounded progress of reclamation after all guards are gone) + heap shadow",
                 level_text="Every operation of every enumerated or generated sequence is judged by the model: no bad_hazard_*_alloc while fewer than K other guards protect "
                            "something (slot leaks, slots held by empty guards), the exception when hazard_pointer's K slots are all in use, untouched guards after a failed "
                            "operation, protection of every guarded node against a concurrently scanning thread, across thread exit and control-block reuse.",
@@ -748,7 +748,7 @@ META = {
                            "every per-key sub-history is decided exactly; every single-threaded sequence of 4 operations over two keys and long random "
                            "sequences are compared step by step with std::map / std::set.",
                 level_note=_LEVEL_NOTE),
-    "C09": dict(design_ref="DESIGN.md 5/C09", technique="runtime monitoring: traversal monitor (yield log vs recorded update history, one-sided interval reasoning) + heap shadow oracle",
+    "C09": dict(design_ref="DESIGN.md 5/C09", technique="runtime monitoring: traversal monitor (yield log vs recorded update history, one-sided interval reasoning) + heap shadow oracle + reference-model monitor (std::map) over single-threaded sequences with iterators held across updates",
                 level_text="Traversals overlapping inserts and erases, including erase of the current element under the iterator, iterator copies and the iterator's own "
                            "erase; only definite facts are used, so a verdict never depends on timing luck.",
                 level_note=_LEVEL_NOTE),
@@ -778,13 +778,13 @@ META = {
                 level_text="Same executions as C01; exactly-once destruction, deleter identity (stateful deleter tokens) and hand-over of retire lists of exited threads are "
                            "decided at the quiescent end after a flush whose iteration bound (10 000) is two orders of magnitude above what the slowest scheme needs.",
                 level_note=_LEVEL_NOTE + " 'Eventually' is restated as bounded progress of the flush."),
-    "C15": dict(design_ref="DESIGN.md 5/C15 and 0.2", technique="runtime monitoring: reference-model monitors - shared-ownership model of guards over bounded-exhaustive and random guard operation sequences for all 16 reclaimer configurations, value history of cells for snapshot claims, native ASan+UBSan bit-model check of marked_ptr/concurrent_ptr",
+    "C15": dict(design_ref="DESIGN.md 5/C15 and 0.2", technique="runtime monitoring: reference-model monitors - shared-ownership model of guards over bounded-exhaustive and random guard operation sequences for all 16 reclaimer configurations, value history of cells for snapshot claims, release probe (a thread that destroyed all its guards must not delay reclamation: bounded progress), native ASan+UBSan bit-model check of marked_ptr/concurrent_ptr",
                 level_text="(a)(b) marked_ptr for all mark widths 0..32 and four upper/lower splits against a bit model, concurrent_ptr as atomic marked_ptr, under "
                            "ASan+UBSan; (c) every sequence of 2 (thorough: 3) guard operations over 4 guards from three start states plus long random sequences "
                            "racing a retiring thread for each reclaimer, and the guard algebra inside the concurrent reclaim protocol; (d) snapshot claims of acquire / "
                            "acquire_if_equal against the recorded value history of the source while other threads keep replacing it.",
                 level_note=_LEVEL_NOTE),
-    "C17": dict(design_ref="DESIGN.md 5/C17", technique="runtime monitoring: allocation census at quiescent points across thread generations + C01/C02 oracles across control-block reuse",
+    "C17": dict(design_ref="DESIGN.md 5/C17", technique="runtime monitoring: allocation census and census of the published hazard pointer / era counts at quiescent points across thread generations + C01/C02 oracles across control-block reuse",
                 level_text="6-10 generations of short-lived threads per execution with adoption of exited threads' records inside the history; the number of live heap blocks "
                            "at quiescent points must be independent of the number of threads ever created.",
                 level_note=_LEVEL_NOTE),
